@@ -36,6 +36,11 @@ def us_of(d):
     return (d - datetime.min) // US
 
 
+def usx(d):
+    """canonical text of a history key component (a non-datetime is shown, never raised on)"""
+    return str(us_of(d)) if isinstance(d, datetime) else f"?{type(d).__name__}"
+
+
 def _mods():
     from midgard.site_info.antenna import Antenna
     from midgard.site_info.eccentricity import Eccentricity
@@ -344,7 +349,7 @@ def canon_val(v):
     if isinstance(v, SiteInfoHistoryBase):
         if v.history is None:
             return "HN"
-        return "H[" + ",".join(f"{us_of(k[0])}~{us_of(k[1])}~{canon_entry(e)}" for k, e in v.history.items()) + "]"
+        return "H[" + ",".join(f"{usx(k[0])}~{usx(k[1])}~{canon_entry(e)}" for k, e in v.history.items()) + "]"
     if type(v).__name__.startswith("Identifier"):
         return f"I{v._info['_tag']}"
     return canon_entry(v)
@@ -685,7 +690,11 @@ def run(ctx: Ctx):
     for i, case in enumerate(cases):
         nontrivial = any(source_intervals(s, case["kind"]) for s in case["source"]) and any(
             q["date"] is not None for q in case["queries"])
-        ctx.case(case if len(json.dumps(case)) < 4000 else {"digest": common.digest(case), "kind": case["kind"]},
+        ctx.case(case if len(json.dumps(case)) < 2500 else
+                 {"digest": common.digest(case), "kind": case["kind"], "label": case.get("label"),
+                  "stations": [s["key"] for s in case["source"]],
+                  "intervals": [len(source_intervals(s, case["kind"])) for s in case["source"]],
+                  "first_queries": case["queries"][:3], "n_queries": len(case["queries"])},
                  nontrivial=nontrivial)
         ctx.count(f"kind={case['kind']}")
         ctx.count("corpus" if i < ncorpus else "systematic" if "label" in case else "random")
